@@ -95,6 +95,22 @@ type X struct {
 	ID  int    `json:"id,omitempty"`  // leaf identity; wrap: identity of the annotation error; panicother: the int
 	Tag int    `json:"tag,omitempty"` // identity of the object this node creates
 	Xs  []*X   `json:"xs,omitempty"`
+	// filterexclude: Xs[0] is the operand, Xs[1:] the exclusions.
+	// consume: Xs = the scripted source (Kinds[i]: 0 item, 1 the source fails with it, 2 cancel the context and
+	// yield it), Adds = errors added to the collector first (Via[i] = the helper used), Pre = iter.AddError
+	// operands, B = context already cancelled, Stream = use erc.Stream over a channel
+	Adds   []*X  `json:"adds,omitempty"`
+	Pre    []*X  `json:"pre,omitempty"`
+	Kinds  []int `json:"kinds,omitempty"`
+	Via    []int `json:"via,omitempty"`
+	B      bool  `json:"b,omitempty"`
+	Stream bool  `json:"stream,omitempty"`
+}
+
+func (x *X) children() []*X {
+	out := append([]*X{}, x.Xs...)
+	out = append(out, x.Adds...)
+	return append(out, x.Pre...)
 }
 
 type ConcCase struct {
@@ -127,6 +143,8 @@ func (x *X) coq() string {
 		return "XPtr " + kit.ZI(x.ID)
 	case "typed":
 		return "XTyped " + kit.ZI(x.S) + " " + kit.ZI(x.ID)
+	case "typedu":
+		return "XTypedU " + kit.ZI(x.S) + " " + kit.ZI(x.ID)
 	case "errorf":
 		return "XErrorf " + kit.ZI(x.Tag) + " (" + x.Xs[0].coq() + ")"
 	case "ejoin":
@@ -157,6 +175,25 @@ func (x *X) coq() string {
 		return "XJoinRemoveOk " + kit.ZI(x.Tag) + " " + xs()
 	case "joinappend":
 		return "XJoinAppend " + kit.ZI(x.Tag) + " " + xs()
+	case "filterexclude":
+		ex := make([]string, len(x.Xs)-1)
+		for i, c := range x.Xs[1:] {
+			ex[i] = c.coq()
+		}
+		return "XFilterExclude " + kit.List(ex) + " (" + x.Xs[0].coq() + ")"
+	case "consume":
+		var adds []string
+		for i, a := range x.Adds {
+			adds = append(adds, a.coq())
+			if x.Via[i] == viaRecoverHook { // RecoverHook adds the error and then the marker
+				adds = append(adds, "XConst 1%Z")
+			}
+		}
+		pre := make([]string, len(x.Pre))
+		for i, c := range x.Pre {
+			pre[i] = c.coq()
+		}
+		return "XConsume " + kit.ZI(x.Tag) + " " + kit.Bool(x.B) + " " + kit.List(adds) + " " + kit.List(pre) + " " + xs() + " " + kit.ZListI(x.Kinds)
 	}
 	panic("bad kind " + x.K)
 }
@@ -184,6 +221,8 @@ type node struct {
 }
 
 type env struct {
+	unodes map[typedKey]*node
+	colls  map[error]*erc.Collector
 	reg    map[error]*node
 	caseID int
 	run    *kit.Run
@@ -192,7 +231,8 @@ type env struct {
 }
 
 func newEnv(run *kit.Run, c Case) *env {
-	e := &env{reg: map[error]*node{}, caseID: c.ID, run: run, cs: c}
+	e := &env{reg: map[error]*node{}, unodes: map[typedKey]*node{}, colls: map[error]*erc.Collector{}, caseID: c.ID, run: run, cs: c}
+	e.reg[context.Canceled] = &node{id: 90, kind: kLeaf, lk: "ctx"}
 	for s := 0; s < nConst; s++ {
 		e.reg[constErr(s)] = &node{id: s, kind: kLeaf, lk: "const"}
 	}
@@ -213,6 +253,14 @@ var otherRE = regexp.MustCompile(`^\[int\]: (\d+)$`)
 func (e *env) lookup(err error) *node {
 	if err == nil {
 		return nil
+	}
+	if k, ok := typedUKey(err); ok { // never hash an uncomparable value
+		if n, ok := e.unodes[k]; ok {
+			return n
+		}
+		n := &node{id: k.id, kind: kLeaf, lk: "typedu", ty: k.ty}
+		e.unodes[k] = n
+		return n
 	}
 	if n, ok := e.reg[err]; ok {
 		return n
@@ -334,6 +382,10 @@ func init() {
 		id := id
 		targets = append(targets, target{"Ptr " + kit.ZI(id), ptrErrs[id], func(n *node) bool { return n.kind == kLeaf && n.lk == "ptr" && n.id == id }})
 	}
+	for _, k := range typedUIDs {
+		k := k
+		targets = append(targets, target{"TypedU " + kit.ZI(k.ty) + " " + kit.ZI(k.id), mkTypedU(k.ty, k.id), func(n *node) bool { return n.kind == kLeaf && n.lk == "typedu" && n.ty == k.ty && n.id == k.id }})
+	}
 	for _, k := range typedIDs {
 		k := k
 		targets = append(targets, target{"Typed " + kit.ZI(k.ty) + " " + kit.ZI(k.id), typedErrs[k], func(n *node) bool { return n.kind == kLeaf && n.lk == "typed" && n.id == k.id }})
@@ -341,7 +393,15 @@ func init() {
 }
 
 // asProbe runs errors.As for target kind k (0 = ers.Error, 1..3 = typed) and returns the identity found (-1 none).
-func (e *env) asProbe(res error, k int) int {
+const nAsKinds = 6 // 0 = ers.Error, 1..3 comparable typed, 4 = sliceErr, 5 = mapErr
+
+func (e *env) asProbe(res error, k int) (out int) {
+	defer func() {
+		if p := recover(); p != nil {
+			e.fail("C12:As:panic", fmt.Sprintf("errors.As(%s, type %d) panicked: %v", e.describe(res), k, p), k)
+			out = -1
+		}
+	}()
 	switch k {
 	case 0:
 		var t ers.Error
@@ -363,6 +423,16 @@ func (e *env) asProbe(res error, k int) int {
 		if errors.As(res, &t) {
 			return t.id
 		}
+	case 4:
+		var t sliceErr
+		if errors.As(res, &t) {
+			return e.idOf(t)
+		}
+	case 5:
+		var t mapErr
+		if errors.As(res, &t) {
+			return e.idOf(t)
+		}
 	}
 	return -1
 }
@@ -370,6 +440,9 @@ func (e *env) asProbe(res error, k int) int {
 func asPred(k int) func(*node) bool {
 	if k == 0 {
 		return func(n *node) bool { return n.kind == kLeaf && n.lk == "const" }
+	}
+	if k >= 4 {
+		return func(n *node) bool { return n.kind == kLeaf && n.lk == "typedu" && n.ty == k }
 	}
 	return func(n *node) bool { return n.kind == kLeaf && n.lk == "typed" && n.ty == k }
 }
@@ -440,7 +513,7 @@ func (e *env) checkAggregate(op string, supplied []*node, res error) {
 	}
 	// Unwind: each supplied constituent exactly once, most recent first
 	if len(cons) >= 2 || op == "Collector" {
-		got := e.ids(ers.Unwind(res))
+		got := e.ids(e.unwind(res))
 		if !sameMultiset(got, want) {
 			e.fail("C12:Unwind:multiset", fmt.Sprintf("%s: ers.Unwind(result)=%v is not the multiset of supplied constituents %v", op, got, want), got)
 		} else if !eqInts(got, reversed(want)) {
@@ -458,7 +531,7 @@ func (e *env) checkAggregate(op string, supplied []*node, res error) {
 		}
 	} else {
 		// single constituent: it heads the unwound chain of the result
-		got := e.ids(ers.Unwind(res))
+		got := e.ids(e.unwind(res))
 		if c := cons[0]; (c.kind == kLeaf || c.kind == kWrap) && (len(got) == 0 || got[0] != c.id) {
 			e.fail("C12:Unwind:multiset", fmt.Sprintf("%s: single constituent %d but ers.Unwind(result)=%v", op, c.id, got), got)
 		}
@@ -471,7 +544,7 @@ func (e *env) checkAggregate(op string, supplied []*node, res error) {
 				exp = true
 			}
 		}
-		got := errors.Is(res, t.err)
+		got := e.is(res, t.err, t.coq)
 		if exp && !got {
 			e.fail("C12:Is:missing", fmt.Sprintf("%s: errors.Is(result, %s)=false although it was supplied; constituents %v", op, t.coq, want), t.coq)
 		}
@@ -480,7 +553,7 @@ func (e *env) checkAggregate(op string, supplied []*node, res error) {
 		}
 	}
 	// errors.As per type
-	for k := 0; k <= 3; k++ {
+	for k := 0; k < nAsKinds; k++ {
 		p := asPred(k)
 		exp := false
 		for _, s := range supplied {
@@ -557,7 +630,7 @@ func (e *env) keptAll(op string, vs, kept []error) {
 		}
 		n := e.lookup(v)
 		holds := n != nil && len(flatten(n)) > 0
-		if j < len(kept) && kept[j] == v {
+		if j < len(kept) && sameErr(kept[j], v) {
 			j++
 			continue
 		}
@@ -587,6 +660,8 @@ func (e *env) evNode(x *X, top *topInfo) error {
 		return ptrErrs[x.ID]
 	case "typed":
 		return typedErrs[typedKey{x.S, x.ID}]
+	case "typedu":
+		return mkTypedU(x.S, x.ID)
 	case "errorf":
 		v := e.ev(x.Xs[0], nil)
 		res := fmt.Errorf("w%d: %w", x.Tag, v)
@@ -681,6 +756,9 @@ func (e *env) evNode(x *X, top *topInfo) error {
 		if ec.HasErrors() != (ncons != 0) || ec.Ok() != (ncons == 0) {
 			e.fail("C12:Collector:lost", fmt.Sprintf("HasErrors=%v Ok=%v with %d constituents", ec.HasErrors(), ec.Ok(), ncons), nil)
 		}
+		if res != nil {
+			e.colls[res] = ec
+		}
 		e.checkAggregate("Collector", sup, res)
 		// Iterator: from the most recent error to the oldest, exactly what was added
 		if items, ierr := ec.Iterator().Slice(context.Background()); ierr != nil {
@@ -715,7 +793,7 @@ func (e *env) evNode(x *X, top *topInfo) error {
 				if len(vn.kids) >= 2 {
 					want = idsOfNodes(vn.kids[1:])
 				}
-				got := e.ids(ers.Unwind(res))
+				got := e.ids(e.unwind(res))
 				if (res == nil) != (len(want) == 0) || !eqInts(got, want) {
 					e.fail("C12:Unwrap:layer", fmt.Sprintf("Unwrap of a stack holding %v yields %v (nil=%v), want %v", idsOfNodes(vn.kids), got, res == nil, want), got)
 				}
@@ -731,6 +809,10 @@ func (e *env) evNode(x *X, top *topInfo) error {
 		}
 		e.registerResult(x.Tag, res)
 		return res
+	case "filterexclude":
+		return e.evFilterExclude(x)
+	case "consume":
+		return e.evConsume(x, top)
 	case "joinremoveok", "joinappend":
 		vs := kids()
 		var kept []error
@@ -775,12 +857,12 @@ func (e *env) evNode(x *X, top *topInfo) error {
 			return res
 		}
 		// every recovered panic is marked
-		if !errors.Is(res, ers.ErrRecoveredPanic) {
+		if !e.is(res, ers.ErrRecoveredPanic, "ErrRecoveredPanic") {
 			cls := "unmarked"
 			if x.K == "panicerrs" {
 				cls = "error-slice"
 			}
-			e.fail("C12:ParsePanic:"+cls, fmt.Sprintf("ParsePanic(%T) = %v: errors.Is(result, ErrRecoveredPanic) is false", r, e.ids(ers.Unwind(res))), e.idOf(res))
+			e.fail("C12:ParsePanic:"+cls, fmt.Sprintf("ParsePanic(%T) = %v: errors.Is(result, ErrRecoveredPanic) is false", r, e.ids(e.unwind(res))), e.idOf(res))
 		}
 		e.checkAggregate("ParsePanic", sup, res)
 		e.registerResult(x.Tag, res)
@@ -806,6 +888,9 @@ func (g *gen) leaf() *X {
 		return &X{K: "const", S: g.r.Intn(nConst)}
 	case 5, 6:
 		return &X{K: "ptr", ID: ptrIDs[g.r.Intn(len(ptrIDs))]}
+	case 7:
+		k := typedUIDs[g.r.Intn(len(typedUIDs))]
+		return &X{K: "typedu", S: k.ty, ID: k.id}
 	default:
 		k := typedIDs[g.r.Intn(len(typedIDs))]
 		return &X{K: "typed", S: k.ty, ID: k.id}
@@ -824,7 +909,7 @@ func (g *gen) list(depth int) []*X {
 	return out
 }
 
-var kinds = []string{"errorf", "errorf", "ejoin", "ejoin", "multi", "join", "join", "join", "wrap", "wrap", "stack", "stack", "stackpush", "collect", "panicerr", "panicstr", "panicerrs", "panicother", "unwrap", "unwrap", "unwrap", "joinremoveok", "joinappend"}
+var kinds = []string{"errorf", "errorf", "ejoin", "ejoin", "multi", "join", "join", "join", "wrap", "wrap", "stack", "stack", "stackpush", "collect", "panicerr", "panicstr", "panicerrs", "panicother", "unwrap", "unwrap", "unwrap", "joinremoveok", "joinappend", "filterexclude", "consume", "consume"}
 
 func (g *gen) node(k string, depth int) *X {
 	x := &X{K: k, Tag: g.next()}
@@ -834,6 +919,14 @@ func (g *gen) node(k string, depth int) *X {
 	case "unwrap":
 		x.S = g.r.Intn(2)
 		x.Xs = []*X{g.layerSource(depth - 1)}
+	case "filterexclude":
+		x.Tag = 0
+		x.Xs = []*X{g.tree(depth - 1)}
+		for n := g.r.Intn(4); n > 0; n-- {
+			x.Xs = append(x.Xs, g.leaf())
+		}
+	case "consume":
+		g.consume(x, depth)
 	case "wrap":
 		x.ID = g.next()
 		x.S = g.r.Intn(2)
@@ -850,6 +943,61 @@ func (g *gen) node(k string, depth int) *X {
 		x.Xs = g.list(depth - 1)
 	}
 	return x
+}
+
+func (g *gen) nonNilLeaf() *X {
+	for {
+		if l := g.leaf(); l.K != "nil" {
+			return l
+		}
+	}
+}
+
+// consume: errors added first (through the different helpers), iterator errors, a scripted source, a context
+func (g *gen) consume(x *X, depth int) {
+	for n := g.r.Intn(4); n > 0; n-- {
+		via := g.r.Intn(nVia)
+		var a *X
+		switch via {
+		case viaRecover:
+			a = g.node([]string{"panicerr", "panicstr", "panicother"}[g.r.Intn(3)], depth-1)
+		case viaRecoverHook:
+			a = g.nonNilLeaf()
+		default:
+			a = g.tree(depth - 1)
+		}
+		x.Adds = append(x.Adds, a)
+		x.Via = append(x.Via, via)
+	}
+	x.B = g.r.Chance(1, 3)
+	x.Stream = g.r.Chance(1, 4)
+	nitems := g.r.Intn(5)
+	for i := 0; i < nitems; i++ {
+		k := 0
+		if !x.Stream {
+			switch g.r.Intn(6) {
+			case 0:
+				k = 1
+			case 1, 2:
+				k = 2
+			}
+		}
+		x.Kinds = append(x.Kinds, k)
+		if k == 1 {
+			x.Xs = append(x.Xs, g.nonNilLeaf())
+		} else {
+			x.Xs = append(x.Xs, g.tree(depth-1))
+		}
+	}
+	if !x.Stream {
+		for n := g.r.Intn(4); n > 0; n-- {
+			if g.r.Chance(1, 4) {
+				x.Pre = append(x.Pre, g.node("collect", depth-1))
+			} else {
+				x.Pre = append(x.Pre, g.tree(depth-1))
+			}
+		}
+	}
 }
 
 // layerSource: something worth peeling with Unwrap — mostly an aggregate of several errors (so the result is an
@@ -880,7 +1028,7 @@ func (g *gen) tree(depth int) *X {
 	return g.node(kinds[g.r.Intn(len(kinds))], depth)
 }
 
-var topKinds = []string{"join", "join", "join", "join", "join", "join", "wrap", "wrap", "wrap", "stack", "stack", "stackpush", "collect", "collect", "collect", "panicerr", "panicerr", "panicerrs", "panicstr", "panicother", "ejoin", "errorf", "multi", "unwrap", "unwrap", "joinremoveok", "joinappend"}
+var topKinds = []string{"join", "join", "join", "join", "join", "join", "wrap", "wrap", "wrap", "stack", "stack", "stackpush", "collect", "collect", "collect", "panicerr", "panicerr", "panicerrs", "panicstr", "panicother", "ejoin", "errorf", "multi", "unwrap", "unwrap", "joinremoveok", "joinappend", "filterexclude", "consume", "consume", "consume"}
 
 func genCase(r *kit.Rand) *X {
 	g := &gen{r: r, tag: 1000}
@@ -896,12 +1044,12 @@ func genCase(r *kit.Rand) *X {
 
 func depthOf(x *X) int {
 	d := 0
-	for _, c := range x.Xs {
+	for _, c := range x.children() {
 		if cd := depthOf(c); cd > d {
 			d = cd
 		}
 	}
-	if x.K == "nil" || x.K == "const" || x.K == "ptr" || x.K == "typed" {
+	if x.K == "nil" || x.K == "const" || x.K == "ptr" || x.K == "typed" || x.K == "typedu" {
 		return 0
 	}
 	return d + 1
@@ -909,7 +1057,7 @@ func depthOf(x *X) int {
 
 func countKinds(x *X, into map[string]int) {
 	into[x.K]++
-	for _, c := range x.Xs {
+	for _, c := range x.children() {
 		countKinds(c, into)
 	}
 }
@@ -938,9 +1086,9 @@ func execTree(run *kit.Run, c Case, verbose bool) {
 	}()
 	rid := e.idOf(res)
 	okv := ers.Ok(res)
-	unw := e.ids(ers.Unwind(res))
+	unw := e.ids(e.unwind(res))
 	// never a nil, never an object nobody supplied
-	for i, u := range ers.Unwind(res) {
+	for i, u := range e.unwind(res) {
 		if u == nil {
 			e.fail("C12:Unwind:nil-element", fmt.Sprintf("ers.Unwind(result)[%d] is nil (%v)", i, unw), unw)
 		} else if unw[i] == -2 {
@@ -955,12 +1103,12 @@ func execTree(run *kit.Run, c Case, verbose bool) {
 	isObs := make([]string, len(targets))
 	isBools := make([]bool, len(targets))
 	for i, t := range targets {
-		isBools[i] = errors.Is(res, t.err)
+		isBools[i] = e.is(res, t.err, t.coq)
 		isObs[i] = kit.Pair(t.coq, kit.Bool(isBools[i]))
 	}
-	asObs := make([]string, 4)
-	asIDs := make([]int, 4)
-	for k := 0; k <= 3; k++ {
+	asObs := make([]string, nAsKinds)
+	asIDs := make([]int, nAsKinds)
+	for k := 0; k < nAsKinds; k++ {
 		asIDs[k] = e.asProbe(res, k)
 		kk := "KConst"
 		if k > 0 {
@@ -982,7 +1130,7 @@ func execTree(run *kit.Run, c Case, verbose bool) {
 	d := depthOf(c.X)
 	hist := map[string]int{}
 	countKinds(c.X, hist)
-	nonnil := hist["const"] + hist["ptr"] + hist["typed"]
+	nonnil := hist["const"] + hist["ptr"] + hist["typed"] + hist["typedu"]
 	run.Count("tree/top=" + c.X.K)
 	run.Count(fmt.Sprintf("tree/depth=%d", d))
 	run.Count("tree/result=" + resultClass(res, isStack))
@@ -1186,6 +1334,7 @@ func execConc(run *kit.Run, c Case, verbose bool) {
 func leafC(s int) *X                    { return &X{K: "const", S: s} }
 func leafP(id int) *X                   { return &X{K: "ptr", ID: id} }
 func leafT(ty, i int) *X                { return &X{K: "typed", S: ty, ID: 200 + 10*ty + i} }
+func leafU(ty, id int) *X               { return &X{K: "typedu", S: ty, ID: id} }
 func nilX() *X                          { return &X{K: "nil"} }
 func op(k string, tag int, xs ...*X) *X { return &X{K: k, Tag: tag, Xs: xs} }
 
@@ -1251,6 +1400,36 @@ func corpus() []*X {
 		op("joinappend", 1004, nilX(), op("unwrap", 1002, op("join", 1001, leafC(2), leafP(100), leafT(1, 0))), op("stack", 1003), leafC(5)),
 		op("joinremoveok", 1001),
 		op("errorf", 1003, op("unwrap", 1002, op("join", 1001, leafC(2), leafP(100), leafT(1, 0)))),
+		// uncomparable typed errors as constituents (and, always, as errors.Is / errors.As targets)
+		op("join", 1001, leafU(4, 240), leafC(2)),
+		op("join", 1001, leafU(4, 240), leafU(4, 241), leafU(5, 250)),
+		op("join", 1002, op("errorf", 1001, leafU(5, 251)), leafU(4, 240), leafP(100)),
+		op("collect", 1001, leafU(4, 241), leafU(5, 250)),
+		op("panicerr", 1001, leafU(4, 240)),
+		{K: "wrap", Tag: 1001, ID: 1002, Xs: []*X{leafU(5, 250)}},
+		op("unwrap", 1002, op("join", 1001, leafU(4, 240), leafU(4, 240), leafC(3))),
+		// FilterExclude: all-or-nothing on an aggregate
+		{K: "filterexclude", Xs: []*X{op("join", 1001, leafC(2), leafP(100)), leafP(100)}},
+		{K: "filterexclude", Xs: []*X{op("join", 1001, leafC(2), leafP(100)), leafP(101), nilX()}},
+		{K: "filterexclude", Xs: []*X{op("join", 1001, leafC(2), leafP(100))}},
+		{K: "filterexclude", Xs: []*X{op("stack", 1001), leafP(101)}},
+		{K: "filterexclude", Xs: []*X{leafU(4, 240), leafU(4, 240)}},
+		// Consume / Stream: iterator errors x live / cancelled / mid-stream cancelled contexts
+		{K: "consume", Tag: 1001, Xs: []*X{leafP(100), nilX(), leafP(101)}, Kinds: []int{0, 0, 0}},
+		{K: "consume", Tag: 1001, Xs: []*X{leafP(100)}, Kinds: []int{0}, Pre: []*X{leafC(2), leafT(1, 0)}},
+		{K: "consume", Tag: 1001, B: true, Xs: []*X{leafP(100)}, Kinds: []int{0}, Pre: []*X{leafC(2), leafT(1, 0)}},
+		{K: "consume", Tag: 1001, B: true, Xs: []*X{leafP(100)}, Kinds: []int{0}, Pre: []*X{leafC(2)}},
+		{K: "consume", Tag: 1001, Xs: []*X{leafP(100), leafP(101), leafP(102)}, Kinds: []int{0, 2, 0}, Pre: []*X{leafC(2), leafT(1, 0)}},
+		{K: "consume", Tag: 1001, Xs: []*X{leafP(100), leafC(3), leafP(102)}, Kinds: []int{0, 1, 0}, Pre: []*X{leafC(2)}},
+		{K: "consume", Tag: 1001, Xs: []*X{leafP(100), leafC(3)}, Kinds: []int{2, 1}},
+		{K: "consume", Tag: 1001, B: true},
+		{K: "consume", Tag: 1001, Stream: true, Xs: []*X{leafP(100), nilX(), leafC(2)}, Kinds: []int{0, 0, 0}},
+		{K: "consume", Tag: 1001, Stream: true, B: true, Xs: []*X{leafP(100)}, Kinds: []int{0}, Adds: []*X{leafC(4)}, Via: []int{viaAdd}},
+		{K: "consume", Tag: 1004, Xs: []*X{leafP(100)}, Kinds: []int{2},
+			Adds: []*X{leafC(4), nilX(), leafP(101), op("ejoin", 1001, leafC(2), leafC(3)), leafT(2, 0), op("panicerr", 1002, leafP(102)), leafP(103)},
+			Via:  []int{viaHandler, viaWhen, viaWhen, viaCheck, viaCollect, viaRecover, viaRecoverHook},
+			Pre:  []*X{op("collect", 1003, leafC(5), leafT(3, 1))}},
+		{K: "consume", Tag: 1003, Adds: []*X{{K: "panicstr", Tag: 1001, S: 3}, {K: "panicother", Tag: 1002, ID: 1005}}, Via: []int{viaRecover, viaRecover}},
 	}
 }
 
